@@ -35,7 +35,11 @@ use noodles_vcf as vcf;
 use serde_json::{Value, json};
 use vcore::Rng;
 
-pub const TARGETS: [&str; 9] = ["bam", "bcf", "vcfgz", "samgz", "gffgz", "bgzf-seek", "bgzf-gzi", "fasta-fai", "cram-crai"];
+pub const TARGETS: [&str; 10] = ["bam", "bcf", "vcfgz", "samgz", "gffgz", "bgzf-seek", "bgzf-gzi", "fasta-fai", "cram-crai", "bgzf-read"];
+
+/// Caller buffer lengths around the thresholds of the BGZF readers' direct-read path.
+pub const BUF_LENS: [usize; 13] = [1, 4096, 65279, 65280, 65494, 65495, 65496, 65500, 65535, 65536, 65537, 70000, 131072];
+pub const BGZF_READERS: [&str; 4] = ["reader", "reader-after-seek", "multithreaded-reader", "indexed-reader"];
 
 #[derive(Clone, Debug, Default)]
 pub struct RefSpec {
@@ -85,6 +89,10 @@ pub enum Probe {
     Fai { data: String, records: Vec<(Vec<u8>, u64, u64, u64, u64)>, name: Vec<u8>, start: usize, end: usize },
     /// cram `query` / `query_unmapped` with an arbitrary crai
     Crai { data: String, records: Vec<(Option<usize>, usize, usize, u64, u64, u64)>, what: What },
+    /// `Read::read` with a caller buffer of `buf_len` bytes, block after block, on the BGZF item `data` with
+    /// `patches` (offset, bytes) applied; `reader` indexes `BGZF_READERS`; `seek` = compressed offset of a member
+    /// to seek to first (virtual position with in-block offset 0 / uncompressed offset through the gzi)
+    BgzfRead { data: String, patches: Vec<(usize, Vec<u8>)>, reader: usize, buf_len: usize, seek: Option<(u64, u64)> },
 }
 
 fn vp(v: u64) -> bgzf::VirtualPosition {
@@ -254,6 +262,7 @@ impl Probe {
             Probe::Gzi { .. } => 6,
             Probe::Fai { .. } => 7,
             Probe::Crai { .. } => 8,
+            Probe::BgzfRead { .. } => 9,
         }
     }
 
@@ -270,6 +279,9 @@ impl Probe {
             Probe::Crai { data, records, what } => json!({"probe": "crai", "data": data,
                 "records": records.iter().map(|(r, s, sp, o, l, n)| json!([r, s, sp, o.to_string(), l.to_string(), n.to_string()])).collect::<Vec<_>>(),
                 "what": what.to_json()}),
+            Probe::BgzfRead { data, patches, reader, buf_len, seek } => json!({"probe": "bgzfread", "data": data,
+                "patches": patches.iter().map(|(o, b)| json!([o, vcore::report::hex(b)])).collect::<Vec<_>>(),
+                "reader": BGZF_READERS[*reader], "buf_len": buf_len, "seek": seek.map(|(c, u)| json!([c.to_string(), u.to_string()]))}),
         }
     }
 
@@ -297,6 +309,22 @@ impl Probe {
                     records.push((vcore::report::unhex(r[0].as_str()?), u(&r[1])?, u(&r[2])?, u(&r[3])?, u(&r[4])?));
                 }
                 Some(Probe::Fai { data, records, name: vcore::report::unhex(v["name"].as_str()?), start: v["start"].as_u64()? as usize, end: v["end"].as_u64()? as usize })
+            }
+            "bgzfread" => {
+                let mut patches = vec![];
+                for p in v["patches"].as_array()? {
+                    patches.push((p[0].as_u64()? as usize, vcore::report::unhex(p[1].as_str()?)));
+                }
+                Some(Probe::BgzfRead {
+                    data,
+                    patches,
+                    reader: BGZF_READERS.iter().position(|r| Some(*r) == v["reader"].as_str())?,
+                    buf_len: v["buf_len"].as_u64()? as usize,
+                    seek: match v["seek"].as_array() {
+                        Some(a) => Some((u(&a[0])?, u(&a[1])?)),
+                        None => None,
+                    },
+                })
             }
             "crai" => {
                 let mut records = vec![];
@@ -327,6 +355,15 @@ impl Probe {
                 format!("fasta query {}:{start}-{end} on {data} with a fai of {} arbitrary records", String::from_utf8_lossy(name), records.len())
             }
             Probe::Crai { data, records, what } => format!("cram query {what:?} on {data} with a crai of {} arbitrary records", records.len()),
+            Probe::BgzfRead { data, patches, reader, buf_len, seek } => format!(
+                "bgzf {} reading {data} with read(&mut [0; {buf_len}]) calls{}; file patched at {}",
+                BGZF_READERS[*reader],
+                match seek {
+                    Some((c, u)) => format!(" after a seek to the member at {c} (uncompressed offset {u})"),
+                    None => String::new(),
+                },
+                patches.iter().map(|(o, b)| format!("{o}:{}", vcore::report::hex(b))).collect::<Vec<_>>().join(",")
+            ),
         }
     }
 }
@@ -485,6 +522,59 @@ pub fn run(p: &Probe, data: &[u8], side: &corpus::Side) -> io::Result<usize> {
             let mut ir = fasta::io::IndexedReader::new(Cursor::new(data), index);
             let rec = ir.query(&region)?;
             Ok(rec.sequence().len())
+        }
+        Probe::BgzfRead { patches, reader, buf_len, seek, .. } => {
+            let mut bytes = data.to_vec();
+            for (o, b) in patches {
+                for (i, x) in b.iter().enumerate() {
+                    if let Some(d) = bytes.get_mut(o + i) {
+                        *d = *x;
+                    }
+                }
+            }
+            // the index of the UNPATCHED file (what an indexed reader of a later-corrupted file holds)
+            let pairs: Vec<(u64, u64)> = vcore::bgzf::walk_prefix(data)
+                .map(|(w, _)| w.members.iter().zip(&w.starts).skip(1).map(|(m, s)| (m.offset, *s)).collect())
+                .unwrap_or_default();
+            let mut buf = vec![0u8; *buf_len];
+            let mut total = 0usize;
+            fn drain_reads(r: &mut dyn Read, buf: &mut [u8], total: &mut usize) -> io::Result<()> {
+                for _ in 0..100_000 {
+                    match r.read(buf) {
+                        Ok(0) => return Ok(()),
+                        Ok(n) => *total += n,
+                        Err(e) if e.kind() == io::ErrorKind::Interrupted => {}
+                        Err(e) => return Err(e),
+                    }
+                }
+                Ok(())
+            }
+            match reader {
+                2 => {
+                    use bgzf::io::Seek as _;
+                    let mut r = bgzf::io::MultithreadedReader::new(Cursor::new(bytes));
+                    if let Some((c, _)) = seek {
+                        r.seek_to_virtual_position(vp(c << 16))?;
+                    }
+                    drain_reads(&mut r, &mut buf, &mut total)?;
+                }
+                3 => {
+                    let mut r = bgzf::io::IndexedReader::new(Cursor::new(bytes), bgzf::gzi::Index::from(pairs));
+                    if let Some((_, u)) = seek {
+                        r.seek(io::SeekFrom::Start(*u))?;
+                    }
+                    drain_reads(&mut r, &mut buf, &mut total)?;
+                }
+                _ => {
+                    let mut r = bgzf::io::Reader::new(Cursor::new(bytes));
+                    if let Some((c, _)) = seek {
+                        r.seek(vp(c << 16))?;
+                    }
+                    drain_reads(&mut r, &mut buf, &mut total)?;
+                    let _ = u64::from(r.virtual_position());
+                }
+            }
+            Ok(total)
         }
         Probe::Crai { records, what, .. } => {
             let index: cram::crai::Index = records
@@ -712,7 +802,16 @@ pub fn arb_index(rng: &mut Rng, d: &DataInfo, linear: bool, with_header: bool, h
 }
 
 /// The seeded probe addressed by `rng` against the data files described by `infos` (indexed by target).
-pub fn seeded_probe(rng: &mut Rng, infos: &[Vec<DataInfo>]) -> Option<Probe> {
+pub fn seeded_probe(rng: &mut Rng, infos: &[Vec<DataInfo>], bytes_of: &dyn Fn(&str) -> Vec<u8>) -> Option<Probe> {
+    if rng.chance(1, 6) {
+        // BGZF read family: member fields x caller buffer length x reader
+        let ds = infos.get(5)?;
+        if ds.is_empty() {
+            return None;
+        }
+        let d = rng.pick(ds);
+        return seeded_bgzf_read(rng, d, &bytes_of(&d.name));
+    }
     let target = match rng.below(20) {
         0..=3 => 0,
         4..=6 => 1,
@@ -822,3 +921,120 @@ pub fn seeded_probe(rng: &mut Rng, infos: &[Vec<DataInfo>]) -> Option<Probe> {
 
 #[allow(dead_code)]
 fn _assert_traits<R: Read + Seek + BufRead>() {}
+
+// ------------------------------------------------------------------------------------------------
+// deterministic BGZF read family: member header / trailer fields x caller buffer lengths x readers
+
+pub const BGZF_FIELDS: [&str; 4] = ["isize", "bsize", "xlen", "slen"];
+
+/// (compressed offset, member length, payload length, uncompressed start) of the members that are mutated: first,
+/// middle and last data member and the EOF member.
+pub fn bgzf_members(bytes: &[u8]) -> Vec<(u64, u64, u64, u64)> {
+    let Ok((w, _)) = vcore::bgzf::walk_prefix(bytes) else { return vec![] };
+    let all: Vec<(u64, u64, u64, u64)> = w.members.iter().zip(&w.starts).map(|(m, s)| (m.offset, m.size, m.data.len() as u64, *s)).collect();
+    let data: Vec<usize> = (0..all.len()).filter(|&i| all[i].2 > 0).collect();
+    let mut pick: Vec<usize> = vec![];
+    if let Some(&f) = data.first() {
+        pick.push(f);
+    }
+    if data.len() > 2 {
+        pick.push(data[data.len() / 2]);
+    }
+    if let Some(&l) = data.last() {
+        pick.push(l);
+    }
+    if let Some(e) = (0..all.len()).rev().find(|&i| all[i].2 == 0) {
+        pick.push(e);
+    }
+    pick.sort_unstable();
+    pick.dedup();
+    pick.into_iter().map(|i| all[i]).collect()
+}
+
+/// (field index, offset in the member, width, value) of the structured member mutations.
+fn bgzf_field_mutations(size: u64, payload: u64) -> Vec<(usize, u64, usize, u64)> {
+    let mut v = vec![];
+    for x in [0u64, 1, payload.wrapping_sub(1) & 0xffff_ffff, payload + 1, 65279, 65280, 65281, 65494, 65495, 65496, 65497, 65535, 65536, 65537, 0x7fff_ffff, 0xffff_ffff] {
+        v.push((0, size - 4, 4, x));
+    }
+    for x in [0u64, 1, 17, 25, 26, size.wrapping_sub(2) & 0xffff, size & 0xffff, 0xfffe, 0xffff] {
+        v.push((1, 16, 2, x));
+    }
+    for x in [0u64, 5, 7, 8, 0xffff] {
+        v.push((2, 10, 2, x));
+    }
+    for x in [0u64, 1, 3, 0xffff] {
+        v.push((3, 14, 2, x));
+    }
+    v
+}
+
+pub fn det_bgzf_count(bytes: &[u8]) -> usize {
+    bgzf_members(bytes).iter().map(|m| bgzf_field_mutations(m.1, m.2).len()).sum::<usize>() * BUF_LENS.len() * BGZF_READERS.len()
+}
+
+/// Probe `k` of the deterministic BGZF read enumeration of an item: (slot, probe, description).
+pub fn det_bgzf_probe(name: &str, bytes: &[u8], k: usize) -> Option<(usize, Probe, String)> {
+    let per = BUF_LENS.len() * BGZF_READERS.len();
+    let (mut m, rest) = (k / per, k % per);
+    let (bi, ri) = (rest / BGZF_READERS.len(), rest % BGZF_READERS.len());
+    for (off, size, payload, ustart) in bgzf_members(bytes) {
+        let muts = bgzf_field_mutations(size, payload);
+        if m < muts.len() {
+            let (fi, rel, width, value) = muts[m];
+            let patch = value.to_le_bytes()[..width].to_vec();
+            let seek = if ri == 1 || ri == 3 { Some((off, ustart)) } else { None };
+            let p = Probe::BgzfRead { data: name.to_string(), patches: vec![((off + rel) as usize, patch)], reader: ri, buf_len: BUF_LENS[bi], seek };
+            return Some((
+                fi * BGZF_READERS.len() + ri,
+                p,
+                format!("member at {off} (length {size}, payload {payload}): {} <- {value:#x}, caller buffer {} bytes, {}", BGZF_FIELDS[fi], BUF_LENS[bi], BGZF_READERS[ri]),
+            ));
+        }
+        m -= muts.len();
+    }
+    None
+}
+
+/// The seeded BGZF read probe addressed by `rng`.
+pub fn seeded_bgzf_read(rng: &mut Rng, d: &DataInfo, bytes: &[u8]) -> Option<Probe> {
+    let members: Vec<(u64, u64, u64, u64)> = vcore::bgzf::walk_prefix(bytes).ok()?.0.members.iter().map(|m| (m.offset, m.size, m.data.len() as u64, 0)).collect();
+    if members.is_empty() {
+        return None;
+    }
+    let n = 1 + rng.usize_below(2);
+    let mut patches = vec![];
+    let mut target = members[0];
+    for _ in 0..n {
+        let (off, size, payload, _) = *rng.pick(&members);
+        target = (off, size, payload, 0);
+        let muts = bgzf_field_mutations(size, payload);
+        match rng.below(10) {
+            0..=6 => {
+                let (_, rel, width, value) = *rng.pick(&muts);
+                patches.push(((off + rel) as usize, value.to_le_bytes()[..width].to_vec()));
+            }
+            7 => {
+                // any header / trailer field, hostile random value
+                let (rel, width) = *rng.pick(&[(2u64, 1usize), (3, 1), (10, 2), (12, 2), (14, 2), (16, 2), (size - 8, 4), (size - 4, 4)]);
+                let v = rng.next_u64() >> rng.below(64);
+                patches.push(((off + rel) as usize, v.to_le_bytes()[..width].to_vec()));
+            }
+            _ => {
+                // a byte of the compressed data
+                let rel = 18 + rng.below(size.saturating_sub(26).max(1));
+                patches.push(((off + rel) as usize, vec![rng.below(256) as u8]));
+            }
+        }
+    }
+    let buf_len = if rng.chance(3, 4) { *rng.pick(&BUF_LENS) } else { 1 + rng.usize_below(140_000) };
+    let reader = rng.usize_below(BGZF_READERS.len());
+    let seek = if reader == 1 || reader == 3 || rng.chance(1, 6) {
+        let (off, ..) = if rng.chance(1, 2) { target } else { *rng.pick(&members) };
+        let u = d.blocks.iter().take_while(|b| b.0 < off).map(|b| b.1).sum();
+        Some((off, u))
+    } else {
+        None
+    };
+    Some(Probe::BgzfRead { data: d.name.clone(), patches, reader, buf_len, seek })
+}
